@@ -10,6 +10,12 @@ The link is ended at the k-th exchange by one of the causes
     ioerror    IOError in the link loop; mac.deactivate() is a no-op ("ioerror-deact-noop") or the *real*
                nfc.dep deactivate() over a frontend whose device is gone, which raises IOError again
                ("ioerror-deact-raises")
+    unencodable-ui    error in the link loop caused by an outgoing PDU that cannot be encoded: an application thread
+               of this end calls sendto(b"hello", 64) (with MSG_DONTWAIT or blocking) on a bound logical data link
+               socket at exchange k; destination address 64 is outside 0..63, the socket layer does not check it,
+               pdu.encode() fails in the link loop, which has to treat that like any other failed exchange
+    unencodable-name  same with a service name of 256 octets that neither an SDREQ (resolve) nor a CONNECT SN
+               parameter (connect by name) can carry; both ends announce a MIU that lets the PDU pass collect()
 
 Oracle (structural, never elapsed time):
   1. after the run loops have ended, once all workload threads show zero progress (sys.monitoring LINE counter of
@@ -20,7 +26,8 @@ Oracle (structural, never elapsed time):
      termination; same two clauses
   4. service threads (everything started by SnepServer/HandoverServer.start()) are gone -> clause 1 with kind service-*
   5. run() came back (return, SystemExit as pinned by the repository's tests for the IOError path, or IOError which
-     ContactlessFrontend.connect() turns into `return False`)            -> escape/run-loop/<exc_sig>
+     ContactlessFrontend.connect() turns into `return False`); udp mode: connect() itself returned a value.  Any
+     other exception that leaves the link loop (it then ended without terminate())  -> run-loop-died/<exc_sig>/<cause>
 A sample budget that runs out without quiescence is INCONCLUSIVE.
 
 <age> of the socket a blocked call works on:
@@ -37,6 +44,7 @@ path (sys.monitoring LINE hook) until the link has ended: systematic single pree
 """
 import errno
 import itertools
+import logging
 import random
 import sys
 import threading
@@ -57,7 +65,10 @@ from vf.sim.llcpair import ThreadedPair
 
 ID = "C09"
 LEVEL = "exploration"
-RULE = ("case = (cause of termination x end that experiences it x deactivate variant: 7 combinations) x exchange number "
+RULE = ("case = (cause of termination x end that experiences it x deactivate variant: 11 combinations, among them an "
+        "error in the link loop caused by an unencodable outgoing PDU - sendto() to address 64, blocking and "
+        "MSG_DONTWAIT, or resolve()/connect() of a 256 octet service name, issued by an application thread at "
+        "exchange k) x exchange number "
         "k in 2..40 at which the link ends, both enumerated; x assignment of 20 application roles (blocked recv / accept / "
         "connect by SAP and by name / resolve / send on a closed window / sendto / recvfrom / poll recv,send,acks with "
         "and without time-out / close, SNEP and handover clients in mid-request) to the two ends, SNEP and handover "
@@ -89,7 +100,10 @@ ASSUMPTIONS = [
     "workload thread shares its socket (except the thread that later issues close(), after the verdict)",
 ]
 REQUIRED = ["terminations", "terminations/local", "terminations/remote", "terminations/disrupt",
-            "terminations/ioerror-deact-noop", "terminations/ioerror-deact-raises", "blocked_at_term_calls",
+            "terminations/ioerror-deact-noop", "terminations/ioerror-deact-raises", "terminations/unencodable-ui",
+            "terminations/unencodable-name", "unencodable_calls_before_termination",
+            "unencodable_link_loop_returned/fake", "unencodable_link_loop_returned/dep",
+            "unencodable_connect_returned/udp", "blocked_at_term_calls",
             "after_calls_old", "after_calls_new", "service_threads_started", "service_threads_exited",
             "quiescence_waits", "directed_holds_reached_before_termination", "cases_mac_dep", "cases_mac_fake",
             "cases_mac_udp"]
@@ -101,11 +115,27 @@ SINK, DRAIN, NOACC, LDLSINK = 60, 61, 62, 63
 NA_NAME = b"urn:nfc:sn:vf-na"
 HOLE = b"urn:nfc:sn:vf-hole"
 LATE_NAME = b"urn:nfc:sn:vf-late"
+BAD_SAP = 64                                   # not a 6 bit address: the UI PDU cannot be encoded
+LONG_NAME = b"urn:nfc:sn:vf-long." + b"n" * 237  # 256 octets: neither SDREQ nor SN can carry it
+UNENC = ("unencodable-ui", "unencodable-name")
+UNENC_HOW = {"unencodable-ui": ("sendto-nb", "sendto"), "unencodable-name": ("resolve", "connect")}
+DEFAULT_MIU = {"A": 200, "B": 300}
+UNENC_MIU = {"A": 320, "B": 300}               # the PDU with the long name must pass collect() (send MIU >= 259)
 
 _real_time = time
 _orig_thread_start = threading.Thread.start
 _started = []              # (thread, creator) for every Thread.start() in this process (service thread accounting)
 _uncaught = []             # (thread, exc_sig) from threading.excepthook
+_encode_errors = []        # warnings of nfc.llcp.llc that report a pdu.EncodeError (exchange() handled it)
+
+
+class _EncodeErrorLog(logging.Handler):
+    def emit(self, record):
+        try:
+            if "EncodeError" in record.getMessage():
+                _encode_errors.append(threading.current_thread().name)
+        except Exception:
+            pass
 
 
 class _FastTime:
@@ -136,12 +166,15 @@ def _install_process_hooks():
             pass
     threading.excepthook = hook
     L.time = _FastTime()
+    logging.getLogger("nfc.llcp.llc").addHandler(_EncodeErrorLog(logging.WARNING))
 
 
 # =========================================================================================================
 # plan
 CAUSES = [("local", "A", "noop"), ("local", "B", "noop"), ("disrupt", "A", "noop"),
-          ("ioerror", "A", "noop"), ("ioerror", "A", "raises"), ("ioerror", "B", "noop"), ("ioerror", "B", "raises")]
+          ("ioerror", "A", "noop"), ("ioerror", "A", "raises"), ("ioerror", "B", "noop"), ("ioerror", "B", "raises"),
+          ("unencodable-ui", "A", "noop"), ("unencodable-ui", "B", "noop"),
+          ("unencodable-name", "A", "noop"), ("unencodable-name", "B", "noop")]
 K_MIN, K_MAX = 2, 40
 
 
@@ -178,6 +211,10 @@ def make_desc(i, seed, rng):
          "yield_p": rng.choice([0.0, 0.01, 0.02, 0.05]), "yield_seed": rng.randrange(1 << 30),
          "order_seed": rng.randrange(1 << 30), "lto": 100, "agf": rng.random() < 0.7,
          "stagger": rng.choice([0, 0, 1, 3]), "servers": rng.choice(["AB", "AB", "A", "B"])}
+    if cause in UNENC:
+        d["how"] = UNENC_HOW[cause][(j // (len(CAUSES) * 10)) % 2]     # alternates within each MAC mode (period 10)
+        if cause == "unencodable-name":
+            d["miu"] = dict(UNENC_MIU)
     if i % 5 == 4:
         # real nfc.dep exchange()/deactivate() over a frame level air, or ("udp") the complete path: real
         # ContactlessFrontend.connect() + nfc.clf.udp driver + nfc.dep over the in-memory FakeNet
@@ -230,6 +267,7 @@ class Ctx:
         del _uncaught[:]
         self.started_mark = 0
         self.uncaught_mark = 0
+        self.encode_error_mark = len(_encode_errors)
         self.abandoned = set()
         self.gone = {"A": False, "B": False}     # this end's MAC will not send any more
         self.dead = {"A": False, "B": False}     # this end's device raises IOError
@@ -241,6 +279,8 @@ class Ctx:
         self.release = threading.Event()     # directed preemption: the parked thread continues
         self.hold = desc.get("hold")
         self.hold_state = {"armed": False, "count": {}, "held": None, "done": False, "timeout": False}
+        self.fire = threading.Event()        # unencodable-*: exchange k reached, the application thread makes its call
+        self.unenc_rec = None                # call record of that call
 
     def llc(self, end):
         return self.llcs[end] if end in self.llcs else (self.pair.a if end == "A" else self.pair.b)
@@ -268,6 +308,15 @@ class Ctx:
             return "local" if end == d["end"] else "remote"
         if d["cause"] == "disrupt":
             return "disrupt"
+        if d["cause"] in UNENC:
+            # the link loop of d["end"] has to end the link (an initiator deactivates: the peer is cut off; a
+            # target answers the pending request with DISC); the label holds if the call was made on a live link
+            rec, term = self.unenc_rec, self.term[d["end"]]
+            if rec is None or (term is not None and rec[2] > term):
+                return "disrupt"
+            if end == d["end"]:
+                return d["cause"]
+            return "remote" if d["end"] == "B" else "disrupt"
         if end == d["end"]:
             return "ioerror-deact-" + ("raises" if d.get("mac") in ("dep", "udp") else d["deact"])
         return "disrupt"
@@ -618,6 +667,39 @@ def r_raw_recv(w):
         w.do("raw-recv", s, s.sock.recv)
 
 
+def r_unencodable(w):
+    """the application thread that, at exchange k, hands the link loop a PDU that cannot be encoded"""
+    ctx, d = w.ctx, w.ctx.desc
+    how = d["how"]
+    if how in ("sendto", "sendto-nb"):
+        s = w.new_sock(LDL)
+        if not (s and w.bind(s)):
+            return
+    elif how == "resolve":
+        s = w.new_sock(LDL)
+    else:
+        s = w.new_sock(DLC)
+        if not (s and w.bind(s)):
+            return
+    if s is None:
+        return
+    ctx.fire.wait()                       # set by the MAC hook at exchange k (or after the link loops ended)
+
+    def call(kind, fn, *a):
+        def marked():
+            ctx.unenc_rec = w.cur
+            return fn(*a)
+        return w.do(kind, s, marked)
+    if how == "sendto":
+        call("sendto", s.sock.sendto, b"hello", BAD_SAP)
+    elif how == "sendto-nb":
+        call("sendto-nb", s.sock.sendto, b"hello", BAD_SAP, nfc.llcp.MSG_DONTWAIT)
+    elif how == "resolve":
+        call("resolve", s.sock.resolve, LONG_NAME)
+    else:
+        call("connect", s.sock.connect, LONG_NAME)
+
+
 ROLES = {
     "recv": r_recv, "accept": r_accept, "connect-sap": r_connect_sap, "connect-name": r_connect_name,
     "resolve-hole": r_resolve_hole, "resolve-loop": r_resolve_loop, "send-window": r_send_window,
@@ -675,7 +757,9 @@ def old_sequence(ctx, s):
                ("poll-send", lambda: k.poll("send")), ("poll-recv-t", lambda: k.poll("recv", 0.01)),
                ("recvfrom", k.recvfrom), ("sendto", lambda: k.sendto(PAY, LDLSINK)),
                ("sendto-nb", lambda: k.sendto(PAY, LDLSINK, nfc.llcp.MSG_DONTWAIT)),
-               ("connect", lambda: k.connect(LDLSINK)), ("bind", k.bind), ("resolve", lambda: k.resolve(NA_NAME))]
+               ("sendto-nb", lambda: k.sendto(b"hello", BAD_SAP, nfc.llcp.MSG_DONTWAIT)),
+               ("connect", lambda: k.connect(LDLSINK)), ("bind", k.bind), ("resolve", lambda: k.resolve(NA_NAME)),
+               ("resolve", lambda: k.resolve(LONG_NAME))]
         tail = [("close", k.close), ("recvfrom", k.recvfrom), ("sendto", lambda: k.sendto(PAY, LDLSINK))]
     else:
         seq = [("poll-recv", lambda: k.poll("recv")), ("raw-recv", k.recv),
@@ -741,6 +825,15 @@ def new_scenarios(end):
         s = w.new_sock(LDL)
         s and w.do("sendto", s, s.sock.sendto, PAY, LDLSINK)
 
+    def n_unencodable(w):
+        s = w.new_sock(LDL)
+        if s:
+            w.do("sendto-nb", s, s.sock.sendto, b"hello", BAD_SAP, nfc.llcp.MSG_DONTWAIT)
+            w.do("sendto", s, s.sock.sendto, b"hello", BAD_SAP)
+            w.do("resolve", s, s.sock.resolve, LONG_NAME)
+        s = w.new_sock(DLC)
+        s and w.connect(s, LONG_NAME)
+
     def n_sendto_nb_poll(w):
         s = w.new_sock(LDL)
         if s and w.do("sendto-nb", s, s.sock.sendto, PAY, LDLSINK, nfc.llcp.MSG_DONTWAIT)[0]:
@@ -776,7 +869,8 @@ def new_scenarios(end):
     return [("connect", n_connect), ("connect-name", n_connect_name), ("bind-connect", n_bind_connect),
             ("accept", n_accept), ("accept-name", n_accept_name), ("dlc-misc", n_dlc_misc), ("poll-acks", n_poll_acks),
             ("sendto", n_sendto), ("sendto-nb-poll", n_sendto_nb_poll), ("recvfrom", n_recvfrom),
-            ("ldl-poll", n_ldl_poll), ("raw-recv", n_raw_recv), ("resolve", n_resolve), ("close", n_close)]
+            ("ldl-poll", n_ldl_poll), ("raw-recv", n_raw_recv), ("resolve", n_resolve), ("close", n_close),
+            ("unencodable", n_unencodable)]
 
 
 # =========================================================================================================
@@ -952,6 +1046,9 @@ class AirClf:
                     pipe.broken = True
                     ctx.dead["A"] = True
                     ctx.triggered = True
+                elif cause in UNENC and end == "A":
+                    ctx.triggered = True
+                    ctx.fire.set()
             if ctx.dead["A"]:
                 raise IOError(errno.ENODEV, "No such device")
             if pipe.broken:
@@ -964,6 +1061,9 @@ class AirClf:
             pipe.broken = True
             ctx.dead["B"] = True
             ctx.triggered = True
+        if cause in UNENC and end == "B" and self.t_n >= k and not ctx.triggered:
+            ctx.triggered = True
+            ctx.fire.set()
         if ctx.dead["B"]:
             raise IOError(errno.ENODEV, "No such device")
         if data is not None and not pipe.broken:
@@ -1041,6 +1141,9 @@ def extend_macs(pair, ctx):
                 pipe.broken = True
                 ctx.dead["A"] = True
                 ctx.triggered = True
+            elif cause in UNENC and end == "A":
+                ctx.triggered = True
+                ctx.fire.set()
         if ctx.dead["A"]:
             raise IOError(errno.EIO, "injected I/O error")
         if pipe.broken:
@@ -1057,6 +1160,9 @@ def extend_macs(pair, ctx):
             pipe.broken = True
             ctx.dead["B"] = True
             ctx.triggered = True
+        if cause in UNENC and end == "B" and st["t_n"] >= k and not ctx.triggered:
+            ctx.triggered = True
+            ctx.fire.set()
         if ctx.dead["B"]:
             raise IOError(errno.EIO, "injected I/O error (target side)")
         if data is not None:
@@ -1229,7 +1335,8 @@ def run_case(desc, env):
                 srv.daemon = True
                 srv._vf_end = e
                 ctx.servers.append(srv)
-    pair = Pair(dict(opts, miu=200), dict(opts, miu=300), before_start=before)
+    miu = desc.get("miu", DEFAULT_MIU)
+    pair = Pair(dict(opts, miu=miu["A"]), dict(opts, miu=miu["B"]), before_start=before)
     for w in infra:
         w.start()
     for srv in ctx.servers:
@@ -1250,6 +1357,8 @@ def run_case(desc, env):
 
 def start_roles(ctx, desc):
     stag = desc.get("stagger", 0)
+    if desc["cause"] in UNENC:
+        Worker(ctx, desc["end"], "unencodable", r_unencodable, 1).start()
     for i, (name, e) in enumerate(desc["roles"]):
         Worker(ctx, e, name, ROLES[name], 1).start()
         if stag and i % stag == 0:
@@ -1276,13 +1385,24 @@ def finish_case(ctx, env, res):
                               % (status, [i.stack[:4] for i in infos.values()]))
             return res, ctx
     res.times.append(("runs-ended", _real_time.time()))
+    ctx.fire.set()                               # link ended before exchange k: the call is made afterwards
+    mode = desc.get("mac", "fake")
     for e in "AB":
         out = ctx.run_out.get(e, "alive")
         res.count("run_outcome/%s/%s" % (ctx.cause_at(e), out))
         if out.startswith("escape:"):
-            res.violations.append(("escape/run-loop/" + out[7:],
-                                   "run() of end %s left with %s after %s" % (e, ctx.run_err.get(e), ctx.cause_at(e)),
-                                   {"cause": ctx.cause_at(e)}))
+            res.violations.append(("run-loop-died/%s/%s" % (out[7:], ctx.cause_at(e)),
+                                   "%s of end %s did not come back but raised an exception that is neither documented "
+                                   "nor handled (the link loop ended without terminate()) after %s: %s"
+                                   % ("ContactlessFrontend.connect()" if mode == "udp" else "LogicalLinkController.run()",
+                                      e, ctx.cause_at(e), ctx.run_err.get(e)),
+                                   {"cause": ctx.cause_at(e), "mode": mode}))
+        if ctx.cause_at(e) in UNENC:
+            res.count("unencodable_calls_before_termination")
+            res.count("unencodable_how/" + desc["how"])
+            res.count("unencodable_encode_errors_handled_by_link_loop", len(_encode_errors) - ctx.encode_error_mark)
+            if out == "returned":
+                res.count(("unencodable_connect_returned/" if mode == "udp" else "unencodable_link_loop_returned/") + mode)
     for e in "AB":
         if ctx.ended[e] is None:
             ctx.ended[e] = next(ctx.ticks)           # blocked run loop: everything from here on is "afterwards"
@@ -1383,6 +1503,8 @@ def run_case_udp(desc, env):
                     st["term"][end] = True
                 elif cause == "disrupt":
                     st["broken"] = True
+                elif cause in UNENC:
+                    ctx.fire.set()
                 else:
                     ctx.dead[end] = True
 
@@ -1429,7 +1551,7 @@ def run_case_udp(desc, env):
                 up.set()
             return True
         return {"role": "initiator" if e == "A" else "target", "lto": desc["lto"], "agf": bool(desc["agf"]),
-                "miu": 200 if e == "A" else 300, "on-startup": on_startup, "on-connect": on_connect}
+                "miu": desc.get("miu", DEFAULT_MIU)[e], "on-startup": on_startup, "on-connect": on_connect}
 
     def stack(e):
         def body():
@@ -1583,6 +1705,7 @@ def evaluate(desc, env, R):
     """run one case and report into R; returns the list of violation signatures"""
     res, ctx = run_case(desc, env)
     ctx.release.set()
+    ctx.fire.set()
     env.mon.hook = None
     if ctx.pair is not None:
         try:
